@@ -41,8 +41,6 @@ def classify_sql(rec, qi):
     vals = [v for _, vs in (qi.tags or []) for v in vs] + [n for n, _ in (qi.tags or [])]
     if any("\x00" in v for v in vals):
         return "sql-nul-in-value"
-    if any(qscen_bind(v) for v in vals):
-        return "sql-text-bind-colon"
     if any(v == "" for _, vs in (qi.tags or []) for v in vs):
         return "sql-empty-tag-value"
     return None
@@ -108,7 +106,7 @@ def oracle(report, scen, rec):
                     cls = "sql-one-limit-per-req"
                 if cls is None and len(rec["cleaned"]) > 1:
                     # a sibling filter's hazard kills the whole statement
-                    cls = next((c for c in (classify_sql(rec, q) for q in rec["cleaned"]) if c in ("sql-nul-in-value", "sql-text-bind-colon")), None)
+                    cls = next((c for c in (classify_sql(rec, q) for q in rec["cleaned"]) if c in ("sql-nul-in-value",)), None)
                 report.property_failure(
                     "sql: %d of %d strictly matching stored events not delivered for filter %r of REQ %r"
                     % (len(missing), len(strict), qi.model_dump(exclude_none=True), rec["filters"]),
